@@ -195,16 +195,9 @@ func (s *Stream) readBuf() []byte {
 		s.buf = make([]byte, s.bufSize)
 		copy(s.buf, remainBuf)
 	}
-	remainLen := s.length - s.cursor
-	remainNotNulCharNum := int64(0)
-	for i := int64(0); i < remainLen; i++ {
-		if s.buf[s.cursor+i] == nul {
-			break
-		}
-		remainNotNulCharNum++
-	}
-	s.length = s.cursor + remainNotNulCharNum
-	return s.buf[s.cursor+remainNotNulCharNum:]
+	// s.length is the end of the data: do not look for it by scanning for a nul byte,
+	// the input itself may contain one
+	return s.buf[s.length:]
 }
 
 // maxConsecutiveEmptyReads bounds the retries of a reader that returns no data and no error.
